@@ -42,6 +42,9 @@ func main() {
 		if what == "determinism" {
 			all = append(all, observeDeterminism(*plug, *out, 0)...)
 		}
+		if what == "sorted" {
+			all = append(all, observeSorted(*plug, *out)...)
+		}
 		if what == "" || what == "selection" {
 			for _, sel := range selections() {
 				all = append(all, observeSelection(sel, *plug, *out))
